@@ -83,8 +83,18 @@ func (s *k4Sup) HandleMessage(from gen.PID, message any) error {
 	if m, ok := message.(k4Start); ok {
 		s.StartChild(m.name)
 	}
+	if m, ok := message.(k4Hold); ok {
+		close(m.entered)
+		select {
+		case <-m.gate:
+		case <-time.After(10 * time.Second):
+		}
+	}
 	return nil
 }
+
+// k4Hold keeps the supervisor inside a callback until the gate opens
+type k4Hold struct{ entered, gate chan struct{} }
 func (s *k4Sup) Terminate(reason error) {
 	s.sc.add(k4Ev{"supterm", "", s.PID(), supReasonS(reason)})
 }
@@ -121,6 +131,7 @@ func runSupK4(c *Ctx) {
 	}
 	defer node.StopForce()
 	k4WitnessD28(c, node)
+	k4Simultaneous(c, node)
 	n := c.N(40, 600)
 	for it := 0; it < n; it++ {
 		g := c.Rng.Fork()
@@ -347,4 +358,101 @@ func k4WitnessD28(c *Ctx, node gen.Node) {
 	}
 	node.Kill(supPid)
 	k4Quiesce(sc)
+}
+
+// k4Simultaneous: two children are already dead when the supervisor handles the first of the two exit signals (it was
+// busy in a callback meanwhile), and the strategy wants the second one stopped (all-for-one: any two; rest-for-one: the
+// one that died first precedes the other). Stopping a child that is gone is not an error: the supervisor lives on and
+// every spec gets a running child again. KeepOrder is off (with KeepOrder the listed D18/D25 findings apply).
+func k4Simultaneous(c *Ctx, node gen.Node) {
+	r := c.R
+	n := c.N(4, 40)
+	for it := 0; it < n; it++ {
+		kind := []string{"afo", "rfo"}[it%2]
+		nch := 3 + c.Rng.Intn(2)
+		k4Seq++
+		prefix := fmt.Sprintf("s%d_", k4Seq)
+		sc := &k4Scenario{}
+		sc.spec = act.SupervisorSpec{Type: map[string]act.SupervisorType{"afo": act.SupervisorTypeAllForOne, "rfo": act.SupervisorTypeRestForOne}[kind],
+			Restart: act.SupervisorRestart{Strategy: act.SupervisorStrategyPermanent, Intensity: 10, Period: 5}}
+		var names []string
+		for i := 0; i < nch; i++ {
+			nm := fmt.Sprintf("%sc%d", prefix, i)
+			names = append(names, nm)
+			sc.spec.Children = append(sc.spec.Children, act.SupervisorChildSpec{Name: gen.Atom(nm), Factory: k4ChildFactory, Args: []any{sc, nm}})
+		}
+		supPid, err := node.Spawn(k4SupFactory, gen.ProcessOptions{}, sc)
+		if err != nil {
+			r.Note("simultaneous deaths: cannot start the supervisor: %v", err)
+			return
+		}
+		k4Quiesce(sc)
+		first := map[string]gen.PID{}
+		for _, e := range sc.snapshot() {
+			if e.Kind == "start" {
+				first[e.Name] = e.PID
+			}
+		}
+		a := c.Rng.Intn(nch - 1)
+		b := a + 1 + c.Rng.Intn(nch-1-a)
+		reasons := []string{"o1", "o2", "normal", "shutdown"}
+		ra, rb := reasons[c.Rng.Intn(4)], reasons[c.Rng.Intn(4)]
+		h := k4Hold{make(chan struct{}), make(chan struct{})}
+		node.Send(supPid, h)
+		select {
+		case <-h.entered:
+		case <-time.After(5 * time.Second):
+			close(h.gate)
+			r.Count("k4.simultaneous-inconclusive")
+			node.Kill(supPid)
+			continue
+		}
+		// the earlier child dies first, then the later one; both are gone before the supervisor looks
+		node.Send(first[names[a]], supReason(ra))
+		waitUntil(3*time.Second, func() bool { _, e := node.ProcessInfo(first[names[a]]); return e != nil })
+		node.Send(first[names[b]], supReason(rb))
+		waitUntil(3*time.Second, func() bool { _, e := node.ProcessInfo(first[names[b]]); return e != nil })
+		close(h.gate)
+		// wait for the outcome: either the supervisor is gone or every spec has a running child again
+		running := func() (map[string]gen.PID, string) {
+			al := map[string]gen.PID{}
+			term := ""
+			for _, e := range sc.snapshot() {
+				switch e.Kind {
+				case "start":
+					al[e.Name] = e.PID
+				case "term":
+					if al[e.Name] == e.PID {
+						delete(al, e.Name)
+					}
+				case "supterm":
+					term = e.Reason
+				}
+			}
+			return al, term
+		}
+		waitUntil(10*time.Second, func() bool {
+			al, term := running()
+			if term != "" {
+				return true
+			}
+			return len(al) == nch && al[names[a]] != first[names[a]] && al[names[b]] != first[names[b]]
+		})
+		k4Quiesce(sc)
+		al, term := running()
+		hist := fmt.Sprintf("%s supervisor (Permanent, intensity 10, KeepOrder off) with %d children; while it is inside a callback child %d dies with %q and then child %d dies with %q",
+			kind, nch, a, ra, b, rb)
+		r.Case(fmt.Sprintf("k4/simultaneous/%s/%d/%d:%s/%d:%s", kind, nch, a, ra, b, rb), true)
+		r.Count("k4.simultaneous-deaths")
+		switch {
+		case term != "":
+			r.Violation("C08/simultaneous-deaths", hist+": the supervisor terminated with "+term+" (no restart limit was reached, no significant child)",
+				map[string]interface{}{"history": hist, "trace": fmt.Sprint(sc.snapshot())})
+		case len(al) != nch || al[names[a]] == first[names[a]] || al[names[b]] == first[names[b]]:
+			r.Violation("C08/simultaneous-deaths", fmt.Sprintf("%s: %d of %d specs have a running child afterwards", hist, len(al), nch),
+				map[string]interface{}{"history": hist, "trace": fmt.Sprint(sc.snapshot())})
+		}
+		node.Kill(supPid)
+		k4Quiesce(sc)
+	}
 }
